@@ -160,7 +160,10 @@ def gen_case(rng):
             if v not in vals:
                 vals.append(v)
         grid.append([key, vals])
-    if rng.random() < 0.5:
+    r_out = rng.random()
+    if r_out < 0.2:          # overlapping output keys (both expand to several variables in the sweep; served since repair D77)
+        outputs = [["x", "all/op/x"], ["u", f"{NAMES[rng.randrange(nn)]}/op/x"]]
+    elif r_out < 0.55:
         outputs = [["x", "all/op/x"]]
     else:
         outs = rng.sample(range(nn), rng.randint(1, 2))
